@@ -38,6 +38,11 @@ def setup() -> None:
 
     import term_image.widget  # noqa: F401
 
+    # every event ends with gc.collect() (widget finalizers must have run before the allocator is
+    # observed); freezing what exists now keeps those collections proportional to the history
+    gc.collect()
+    gc.freeze()
+
 
 def _devnull_file():
     global _devnull
